@@ -8,7 +8,7 @@ def _outcome():
     return chk.Outcome()
 
 
-def generic(pid, work, tier, seed, cmd, tracespec, scripts, design, sigfn, rule, owns=None, jobs=12, extra=None, script_of=None, gwbin="rdpgw"):
+def generic(pid, work, tier, seed, cmd, tracespec, scripts, design, sigfn, rule, owns=None, jobs=12, extra=None, script_of=None, gwbin="rdpgw", tag=None):
     """Run a driver over scripts, validate with a trace spec, confirm violations per signature."""
     out = _outcome()
 
@@ -36,7 +36,8 @@ def generic(pid, work, tier, seed, cmd, tracespec, scripts, design, sigfn, rule,
                 sid = sid.rsplit(".t", 1)[0]     # a tunnel of a multi-tunnel script
             viol.append({"line": ln, "guard": v[1], "a": v[2], "b": v[3] if len(v) > 3 else "", "script": sid, "event": lines[ln - 1]})
         return rep, res, viol, lines
-    rep, res, viol, lines = run(scripts, pid.lower())
+    tag = tag or pid.lower()
+    rep, res, viol, lines = run(scripts, tag)
     owns = owns or (lambda v: guard_property(v["guard"]) == pid)
     mine = [v for v in viol if owns(v)]
     byid = {s["id"]: s for s in scripts} if scripts else {}
@@ -48,10 +49,16 @@ def generic(pid, work, tier, seed, cmd, tracespec, scripts, design, sigfn, rule,
                 if v["script"] not in l and len(l) < 3:
                     l.append(v["script"])
             sids = sorted({x for l in per.values() for x in l})
-            rep2, res2, viol2, _ = run([byid[x] for x in sids if x in byid], pid.lower() + "-confirm")
+            rep2, res2, viol2, _ = run([byid[x] for x in sids if x in byid], tag + "-confirm")
         else:
-            rep2, res2, viol2, _ = run(None, pid.lower() + "-confirm")
+            rep2, res2, viol2, _ = run(None, tag + "-confirm")
         again = {sigfn(v) for v in viol2 if owns(v)}
+        if scripts and {sigfn(v) for v in mine} - again:
+            # what a request is answered may depend on what the gateway instance served before it (state shared between
+            # sessions / tunnels): signatures that do not show when their scripts run alone are looked for in a second
+            # run of the whole script list, in the same order on the same partition of instances
+            rep3, res3, viol3, _ = run(scripts, tag + "-confirm-all")
+            again |= {sigfn(v) for v in viol3 if owns(v)}
         conf = [v for v in mine if sigfn(v) in again]
         if not conf:
             raise HarnessError("%s violations did not reproduce: %s" % (pid, sorted({sigfn(v) for v in mine})[:5]))
